@@ -132,6 +132,12 @@ def phrase_line(rnd, d):
         if k == "arg":
             return [name(node), rnd.choice(["1", "2"])]
         if k == "pos":
+            # (an optional member left out: the word that follows the block is then its to try - and, when it does not
+            # convert, the block's failure; a member given a word that does not convert)
+            if node.get("arity") in ("opt", "many") and rnd.random() < 0.4:
+                return []
+            if node.get("vt") == "int" and rnd.random() < 0.1:
+                return ["x"]
             return [rnd.choice(["1", "2"])]
         if k == "adj" and "head" in node:
             h = node["head"]
